@@ -315,9 +315,9 @@ pub fn gen_agg(rng: &mut Rng, depth: usize, risky: bool) -> Value {
         a["fixed_interval"] = json!(*rng.pick(&["1d", "12h", "7d", "36h", "30d", "2w"]));
       }
       let bounds = rng.below(5);
-      // calendar interval + offset + bounds: the fill loop of the code drops the offset after its
-      // first step (known finding date_histogram.calendar-offset-fill): only when risky
-      let fill_risk = risky && rng.chance(1, 3);
+      // calendar interval + offset + bounds: the class of the former finding
+      // date_histogram.calendar-offset-fill (fixed by 0b763bf)
+      let fill_risk = rng.chance(1, 3);
       if (rng.chance(1, 3) && !(calendar && bounds <= 1)) || (fill_risk && calendar && bounds <= 1) {
         a["offset"] = json!(*rng.pick(&["1h", "30m", "0.5d", "6h"]));
       }
